@@ -1301,7 +1301,7 @@ fn main() {
     let (shard, _) = shard_of(&args);
     let signals = match mode.as_str() {
         "c18cap" => 150,
-        "sched" | "stopenum" | "c03long" if shard % 2 == 1 => 500,
+        "sched" | "stopenum" | "c03long" if shard % 2 == 1 => 2000,
         _ => 0,
     };
     if signals > 0 {
